@@ -58,7 +58,7 @@ func parseTree(w []string) (*gtree, bool) {
 			}
 			var v [3]int
 			for i := range f {
-				n, err := strconv.ParseUint(f[i], 10, 31)
+				n, err := strconv.ParseUint(f[i], 10, 63)
 				if err != nil {
 					return nil, false
 				}
@@ -68,7 +68,7 @@ func parseTree(w []string) (*gtree, bool) {
 			known[v[0]] = true
 			mode = 0
 		case mode == 2:
-			n, err := strconv.ParseUint(x, 10, 31)
+			n, err := strconv.ParseUint(x, 10, 63)
 			if err != nil {
 				return nil, false
 			}
@@ -79,7 +79,7 @@ func parseTree(w []string) (*gtree, bool) {
 		case x == "R":
 			mode = 2
 		case mode == 3:
-			n, err := strconv.ParseUint(x, 10, 31)
+			n, err := strconv.ParseUint(x, 10, 63)
 			if err != nil || !known[int(n)] {
 				return nil, false
 			}
@@ -192,7 +192,7 @@ func impl(ops []string) []string {
 				}
 			}()
 			atoi := func(s string) (int, bool) {
-				n, err := strconv.ParseUint(s, 10, 31)
+				n, err := strconv.ParseUint(s, 10, 63)
 				return int(n), err == nil
 			}
 			switch {
@@ -489,7 +489,92 @@ func wild(r *rand.Rand, thorough bool) []string {
 
 const smallTreeCount = 241864 // = len(allSmall), checked at start-up of a thorough run
 
+// shiftCase moves every round number of a case up by base (hashes untouched): the same trees at the top of the int64
+// range, where a sum or an increment of a round number would wrap.
+func shiftCase(ops []string, base int) []string {
+	out := make([]string, len(ops))
+	for i, op := range ops {
+		f := strings.Fields(op)
+		if len(f) == 0 {
+			out[i] = op
+			continue
+		}
+		switch f[0] {
+		case "tree":
+			t, ok := parseTree(f[1:])
+			if !ok {
+				out[i] = op
+				continue
+			}
+			for k := range t.blocks {
+				t.blocks[k].round += base
+			}
+			for k := range t.rounds {
+				t.rounds[k][0] += base
+			}
+			out[i] = t.line()
+		case "cfb":
+			if len(f) == 3 {
+				l, e1 := strconv.Atoi(f[1])
+				rr, e2 := strconv.Atoi(f[2])
+				if e1 == nil && e2 == nil {
+					if l > 0 || i%3 == 0 { // lfbr 0 is also kept as it is: a walk over the whole distance
+						l += base
+					}
+					out[i] = fmt.Sprintf("cfb %d %d", l, rr+base)
+					continue
+				}
+			}
+			out[i] = op
+		case "decide":
+			if len(f) == 3 {
+				if rr, e := strconv.Atoi(f[2]); e == nil {
+					out[i] = fmt.Sprintf("decide %s %d", f[1], rr+base)
+					continue
+				}
+			}
+			out[i] = op
+		default:
+			out[i] = op
+		}
+	}
+	return out
+}
+
+func maxRoundOf(ops []string) int {
+	m := 0
+	for _, op := range ops {
+		f := strings.Fields(op)
+		if len(f) > 0 && f[0] == "tree" {
+			if t, ok := parseTree(f[1:]); ok {
+				for _, b := range t.blocks {
+					if b.round > m {
+						m = b.round
+					}
+				}
+				for _, rd := range t.rounds {
+					if rd[0] > m {
+						m = rd[0]
+					}
+				}
+			}
+		}
+	}
+	return m
+}
+
 func gen(r *rand.Rand, thorough bool, i int) []string {
+	ops := gen0(r, thorough, i)
+	if r.Intn(4) == 0 && !(thorough && i < smallTreeCount) {
+		// the same case with its rounds at the top of the int64 range (or at another large offset)
+		top := 1<<63 - 1 - (maxRoundOf(ops) + 2) - r.Intn(3)
+		base := []int{top, top, 1 << 53, 1<<62 + 1, 1 << 31}[r.Intn(5)]
+		return shiftCase(ops, base)
+	}
+	return ops
+}
+
+func gen0(r *rand.Rand, thorough bool, i int) []string {
 	if thorough && i < smallTreeCount {
 		// EXHAUSTIVE: every small tree, every (lfbr, r) pair
 		t := nthSmallTree(i)
@@ -751,6 +836,9 @@ func main() {
 			// one notarized block: its parent; parent missing: nil
 			{"tree B 1:0:0 B 2:1:1 B 3:2:2 R 1 2 R 2 3", "cfb 0 2", "cfb 1 2", "cfb 2 2", "cfb 0 1", "decide 1 2", "decide 2 2"},
 			{"tree B 2:1:1 B 3:2:2 B 4:2:2 R 1 2 R 2 3 4", "cfb 0 2", "cfb 0 1"},
+			// rounds at the top of the int64 range
+			{"tree B 1:9223372036854775803:0 B 2:9223372036854775804:1 B 3:9223372036854775805:2 B 4:9223372036854775805:2 R 9223372036854775804 2 R 9223372036854775805 3 4 R 9223372036854775806 R 9223372036854775807",
+				"cfb 0 9223372036854775807", "cfb 9223372036854775803 9223372036854775807", "cfb 9223372036854775805 9223372036854775807", "cfb 9223372036854775806 9223372036854775807", "cfb 0 9223372036854775805", "anc 3 4", "decide 2 9223372036854775807", "decide 1 9223372036854775806"},
 			// not level: parents two rounds back
 			{"tree B 1:0:0 B 2:1:1 B 3:2:1 B 4:3:2 B 5:3:3 R 3 4 5", "cfb 0 3", "anc 4 5", "anc 2 3"},
 		},
